@@ -32,5 +32,7 @@ func PanicMsg() string             { panic("engine") }
 func Observe(tag string, b []byte) {}
 func AssumeCollisionFree()         {}
 func AllocBudget(bytes int)        {}
+func AllocCheck()                  {}
 func MapCandidates(ids []uint32)   {}
+func AllocSampling(small, large int) {}
 func Note(s string)                {}
